@@ -50,6 +50,8 @@ def gen_case(ctx, i):
     else:
         c.update(c_scale=float(r.choice([1.0, 0.5, 0.75])), i_scale=float(r.choice([1.0, 0.5, 0.75])), c_stride=int(r.choice([2, 4, 8])), i_stride=int(r.choice([1, 2, 4])),
                  n_animals=int(r.integers(1, 5)), missing_p=float(r.choice([0.0, 0.25])), anchor=[None, 0, "missing"][int(r.integers(0, 3))], crop=int(r.choice([64, 96, 128])))
+        if r.random() < 0.35:  # frames without any animal mixed into the video (they share batches with populated frames)
+            c.update(empty_p=0.4, n_frames=int(r.integers(3, 7)))
     return c
 
 
@@ -79,6 +81,8 @@ def build_scene(case, name):
     for v, (H, W, n) in enumerate(vids):
         for f in range(n):
             P = e2e.make_poses(r, H, W, case["n_nodes"], case["n_animals"], missing_p=case["missing_p"])
+            if case.get("empty_p") and f != n - 1 and r.random() < case["empty_p"]:
+                P = []  # an empty frame; the last frame of every video stays populated, so an empty frame always precedes a populated one
             if case.get("anchor") == "missing" and P:
                 P[0][0] = np.nan
                 if np.isnan(P[0]).sum() // 2 > case["n_nodes"] - 2 and case["n_nodes"] > 2:
@@ -211,6 +215,8 @@ def check_records(ctx, case, small, sf, vids, provider, recs, keys, max_hw):
         got = by.get(key, [])
         tol = tol_of(case, sf, vids, key[0], max_hw)
         ctx.count("frames_checked")
+        if not gt:
+            ctx.count("empty_frames_checked")
         if case["model"] == "single":
             if len(got) != 1:
                 ctx.violation("record-count", f"{provider}: frame {key} yielded {len(got)} records (expected 1)", small)
